@@ -91,6 +91,12 @@ impl LocalFunction {
                 InstrLocId::new(pos as u32)
             };
             validator.op(pos, &inst)?;
+            if ctx.controls.is_empty() {
+                // The function-level `end` has already been seen. The validator
+                // only reports this in `finish`, but we cannot translate an
+                // operator that has no enclosing control frame.
+                anyhow::bail!("operators remaining after end of function");
+            }
             append_instruction(&mut ctx, inst, loc);
             instruction_mapping.insert(pos - code_address_offset, loc);
         }
